@@ -16,7 +16,7 @@ RULE = (
     "broadcast families incl. 0-d, python-scalar / ndarray partners) every available spelling is executed on equal "
     "inputs: mg.f, np.f on tensors, Tensor method (args unpacked or as a tuple), operator, reflected operator with an "
     "ndarray / python scalar on the left, augmented operator, mg.f(out=Tensor), mg.f(out=ndarray), np.f(out=Tensor), "
-    "where= and dtype= through both the mg and the np route, and x**1 / x**2 vs mg.power. Oracle: all spellings give "
+    "where= and dtype= through both the mg and the np route, and x**c vs mg.power for scalar c in {0, 0.5, 1, 1.5, 2, 3} (python / 0-d / NumPy scalar). Oracle: all spellings give "
     "equal values (bit-wise; 4 ulp for the x**2 short-cut), equal dtype, equal constant flag and, after "
     "backward(g) with one drawn g, equal operand gradients. Second family: every member of the bool-only / "
     "no-diff registries applied to tensors returns a plain ndarray / scalar equal to NumPy on the data; every member "
